@@ -37,7 +37,7 @@ def strip_tostr(t):
 
 def one(eng, p, key, v):
     vals = p.attr(key)
-    eng.ob(len(vals) == 1, PROP, 'attr-present', '%s:%s' % (v, key), '%s: attribute "%s" appears %d times on a successful path (expected once)' % (v, key, len(vals)), detail=p.describe(12))
+    eng.ob(len(vals) == 1, PROP, 'attr-present', '%s:%s' % (v, key), '%s: attribute "%s" appears %d times on a successful path (expected once)' % (v, key, len(vals)), where=p, detail=p.describe(12))
     return vals[0] if len(vals) == 1 else None
 
 def run(eng, tier):
@@ -77,7 +77,7 @@ def run(eng, tier):
                     other = 'bid_fee' if key == 'ask_fee' else 'ask_fee'
                     same_acct = False
                     eng.ob(dom.eq(strip_tostr(x), total), PROP, 'amount', '%s:%s' % (v, key),
-                           'match: reported %s is %s but %s was paid to the %s account on this path' % (key, dom.show(strip_tostr(x)), dom.show(total), key.replace('_', '-')), detail=p.describe(20),
+                           'match: reported %s is %s but %s was paid to the %s account on this path' % (key, dom.show(strip_tostr(x)), dom.show(total), key.replace('_', '-')), where=p, detail=p.describe(20),
                            sample={'rule': 'amount', 'attr': key, 'reported': dom.show(strip_tostr(x)), 'paid': dom.show(total)})
             elif v in ('ExpireAsk', 'RejectAsk', 'CancelBid', 'ExpireBid', 'RejectBid'):
                 side = 'ask' if v.endswith('Ask') else 'bid'
@@ -91,12 +91,12 @@ def run(eng, tier):
                     if side == 'ask':
                         paid = [t['amount'] for t in trs if t['to'] == F(REC, 'owner')]
                         eng.ob(len(paid) == 1 and dom.eq(paid[0], rs), PROP, 'amount', v + ':reverse_size',
-                               '%s: reported reverse_size %s differs from the base actually returned to the owner %s' % (v, dom.show(rs), [dom.show(a_) for a_ in paid]), detail=p.describe(20))
+                               '%s: reported reverse_size %s differs from the base actually returned to the owner %s' % (v, dom.show(rs), [dom.show(a_) for a_ in paid]), where=p, detail=p.describe(20))
                     else:
                         bs = BidSpec(REC)
                         paid = [t['amount'] for t in trs if t['to'] == bs.owner and dom.eq(t['amount'], MUL(bs.P, rs))]
                         eng.ob(len(paid) >= 1, PROP, 'amount', v + ':reverse_size',
-                               '%s: reported reverse_size %s: no transfer of price x that size to the owner (returned: %s)' % (v, dom.show(rs), [dom.show(t['amount']) for t in trs]), detail=p.describe(20))
+                               '%s: reported reverse_size %s: no transfer of price x that size to the owner (returned: %s)' % (v, dom.show(rs), [dom.show(t['amount']) for t in trs]), where=p, detail=p.describe(20))
                     # the decrement of the recorded remainder equals the reported size
                     recs = written_record(p, side)
                     if len(recs) == 1 and recs[0][2] is not None:
